@@ -80,7 +80,8 @@ func drawSchema(rt *rapid.T, name string, cfg schemaCfg) model.Schema {
 
 // tgen generates items and requests for one table.
 type tgen struct {
-	redeclare          bool // lateIndexOp may re-declare the type of an index key attribute
+	failClasses        []string // failingOp draws from these classes (nil: all)
+	redeclare          bool     // lateIndexOp may re-declare the type of an index key attribute
 	s                  model.Schema
 	keys               []model.Item
 	ixVals             map[string][]model.AV
